@@ -423,9 +423,13 @@ def cli(x, p):
     out = b''.join(g.lua.to_lines(writer_cls=kw.get('lua_writer_cls'),
                                   writer_args=kw.get('lua_writer_args')))
     x.out('out', out)
+    compare_cli_tokens(x, g.lua.tokens, out, keep_all, keep_file is not None)
+
+
+def compare_cli_tokens(x, in_tokens, out, keep_all, keep_file):
     lx = lexer.Lexer(version=8)
     lx.process_lines([out])
-    sig_in = [t for t in g.lua.tokens if not isinstance(
+    sig_in = [t for t in in_tokens if not isinstance(
         t, (lexer.TokSpace, lexer.TokNewline, lexer.TokComment))]
     sig_out = [t for t in lx.tokens if not isinstance(
         t, (lexer.TokSpace, lexer.TokNewline, lexer.TokComment))]
@@ -436,8 +440,8 @@ def cli(x, p):
     for a, b in zip(sig_in, sig_out):
         x.check('token kind kept', type(a) is type(b))
         if isinstance(a, lexer.TokName):
-            kept = keep_all or a.code == b't' or (
-                keep_file is not None and a.code in (b'bar', b'qux'))
+            kept = keep_all or a.code in (b't', b'print', b'?') or (
+                keep_file and a.code in (b'bar', b'qux'))
             if kept:
                 x.check('names that must be kept are kept', b.code == a.code)
             mapping.setdefault(a.code, b.code)
@@ -447,10 +451,78 @@ def cli(x, p):
             x.check('spelling kept', a.code == b.code)
     x.check('renaming is injective',
             len(set(mapping.values())) == len(mapping))
+    l1 = lua.Lua(version=8)
+    l1._lexer._tokens = list(in_tokens)
     l2 = lua.Lua(version=8)
     l2._lexer._tokens = list(lx.tokens)
     x.check('token count reported by stats is unchanged',
-            l2.get_token_count() == g.lua.get_token_count())
+            l2.get_token_count() == l1.get_token_count())
+
+
+def cli_main(x, p):
+    """`p8tool luamin ...` and `p8tool build --lua-minify ...` end to end
+    through tool.main: argparse wiring, cart reader, minifier, cart writer,
+    then `p8tool stats` on the input and the output."""
+    from props import clikit
+    code = (b'-- title\n-- author\nfoo=bar - -baz\nif (foo) qux=1 ..foo\n'
+            b't[ [[k]] ]=foo\n?foo,bar\nprint(foo) -- c\n')
+    via = x.choice('via', ['luamin', 'build'])
+    keep_all = x.bool('keep_all')
+    keep_file = x.bool('keep_file')
+    fs = clikit.MemFS(x, {'/w/in.p8': clikit.p8_text(code),
+                          '/w/main.lua': code,
+                          '/w/keep.txt': b'bar\n# c\n\nqux \n'})
+    opts = []
+    if keep_all:
+        opts.append('--keep-all-names')
+    if keep_file:
+        opts += ['--keep-names-from-file', '/w/keep.txt']
+    if via == 'luamin':
+        argv = ['luamin'] + opts + ['/w/in.p8']
+        out_name = '/w/in_fmt.p8'
+    else:
+        argv = ['build', '--lua', '/w/main.lua', '--lua-minify'] + opts + \
+            ['/w/out.p8']
+        out_name = '/w/out.p8'
+    rc, exc = clikit.run_main(argv)
+    x.check('the command succeeds', And(exc is None, rc == 0),
+            info=repr((rc, exc))[:160])
+    if exc is not None or rc != 0:
+        return
+    x.check('exactly the output cart is written',
+            fs.opened_for_write == [out_name])
+    if out_name not in fs.files:
+        return
+    got = clikit.lua_of(fs.files[out_name])
+    x.out('code', got)
+    lx = lexer.Lexer(version=8)
+    lx.process_lines([code])
+    compare_cli_tokens(x, lx.tokens, got, keep_all, keep_file)
+    x.check('title and byline comments stay on top',
+            got.startswith(b'-- title\n-- author\n'))
+    # stats on both carts
+    del fs.messages[:]
+    rc1, e1 = clikit.run_main(['stats', '/w/in.p8'])
+    m_in = list(fs.messages)
+    del fs.messages[:]
+    rc2, e2 = clikit.run_main(['stats', out_name])
+    m_out = list(fs.messages)
+    x.check('stats runs on both carts',
+            And(rc1 == 0, rc2 == 0, e1 is None, e2 is None))
+
+    def field(msgs, name):
+        for m in msgs:
+            for line in m.split('\n'):
+                if line.startswith(name):
+                    return line
+        return None
+    x.check('stats reports the same token count',
+            And(field(m_in, '- tokens:') is not None,
+                field(m_in, '- tokens:') == field(m_out, '- tokens:')))
+    x.check('stats reports the same title and byline',
+            And(m_in[0].split(' (')[0] == m_out[0].split(' (')[0] == 'title',
+                m_in[1] == m_out[1] == 'author\n'))
 
 
 HARNESSES.append(Harness('cli', cli, quick=[Q]))
+HARNESSES.append(Harness('cli_main', cli_main, quick=[Q]))
